@@ -63,6 +63,9 @@ def handleBoardPos (i o : Json) : Except String Verdict := do
       let m := boardAtPos root tree p
       if m != impl then
         return .mismatch "board-at-position" s!"{line}:{col} model {showPath m} impl {showPath impl} (text of {text.length} bytes)"
+      -- the theorem's hypothesis on this tree (well nested at p): checked when the parser accepted the text
+      if boards.isSome && !(wnListB p tree && tree.all fun k => !k.r.has p || root.has p) then
+        return .mismatch "tree-not-well-nested" s!"{line}:{col}"
       -- (ii) the property: innermost board whose block contains the position
       if let some bs := boards then
         let want := innermostBoard bs p
